@@ -15,6 +15,7 @@ import (
 
 	"github.com/uhn/ggql/pkg/ggql"
 
+	"verif/internal/ref"
 	"verif/internal/run"
 )
 
@@ -418,7 +419,7 @@ func runC18(c *run.Ctx) {
 					if pv != nil || perr != nil {
 						fail("sdl-parse", sb.String(), fmt.Sprint(pv), perr)
 					} else if !reflect.DeepEqual(normEmpty(back), normEmpty(v)) {
-						fail("sdl-roundtrip", sb.String(), fmt.Sprintf("%#v", back), nil)
+						fail("sdl-roundtrip", sb.String(), c18Show(back), nil)
 					} else if indent == 0 && c18Scribble(back) > 0 {
 						// a parsed value belongs to the caller: after the caller wrote into its containers (the empty ones
 						// too), parsing the same text again must still give the original value
@@ -426,7 +427,7 @@ func runC18(c *run.Ctx) {
 						pv, _ = run.Protect(func() { again, perr = ggql.ParseValueString(sb.String()) })
 						c.Count("reparsed_after_caller_modified_the_first_result", 1)
 						if pv != nil || perr != nil || !reflect.DeepEqual(normEmpty(again), normEmpty(v)) {
-							fail("sdl-parse-after-scribble", sb.String(), fmt.Sprintf("%#v", again), perr)
+							fail("sdl-parse-after-scribble", sb.String(), c18Show(again), perr)
 						}
 					}
 					c.Count("sdl_roundtrips", 1)
@@ -438,7 +439,7 @@ func runC18(c *run.Ctx) {
 						pv, _ = run.Protect(func() { rb, perr = ggql.ParseValue(sr) })
 						c.Count("sdl_roundtrips_through_a_stalling_reader", 1)
 						if pv != nil || perr != nil || !reflect.DeepEqual(normEmpty(rb), normEmpty(v)) {
-							fail("sdl-roundtrip-stalling-reader", sb.String(), fmt.Sprintf("%#v (reader stalled at offsets %v)", rb, sr.stalled), perr)
+							fail("sdl-roundtrip-stalling-reader", sb.String(), c18Show(rb)+fmt.Sprintf(" (reader stalled at offsets %v)", sr.stalled), perr)
 						}
 					}
 				}
@@ -472,7 +473,7 @@ func runC18(c *run.Ctx) {
 				if pv != nil || perr != nil {
 					fail("json-ggqlparse", jb.String(), fmt.Sprint(pv), perr)
 				} else if !reflect.DeepEqual(collapse(normEmpty(back)), collapse(normEmpty(want))) {
-					fail("json-ggqlparse-differs", jb.String(), fmt.Sprintf("%#v", back), nil)
+					fail("json-ggqlparse-differs", jb.String(), c18Show(back), nil)
 				}
 				c.Count("json_ggql_parses", 1)
 			}
@@ -515,7 +516,7 @@ func runC18(c *run.Ctx) {
 				if !ok {
 					mu.Lock()
 					if len(bad) < 5 {
-						bad = append(bad, rec{Value: fmt.Sprintf("%#v", v), Indent: k%3 - 1, Sort: true, Text: sb.String() + "  |JSON| " + jb.String(), Mode: "concurrent-writers", Got: fmt.Sprintf("%#v", back), Err: fmt.Sprint(pv, e1, e2, e3, e4)})
+						bad = append(bad, rec{Value: fmt.Sprintf("%#v", v), Indent: k%3 - 1, Sort: true, Text: sb.String() + "  |JSON| " + jb.String(), Mode: "concurrent-writers", Got: c18Show(back), Err: fmt.Sprint(pv, e1, e2, e3, e4)})
 					}
 					mu.Unlock()
 					return
@@ -532,21 +533,38 @@ func runC18(c *run.Ctx) {
 
 // normEmpty maps empty containers to canonical empties (nil slice vs empty slice).
 func normEmpty(v interface{}) interface{} {
+	if ref.Cyclic(v) {
+		// a parsed value that contains itself (a reader handing out one shared container): never equal to a generated value,
+		// and nothing to walk
+		return "<value contains itself>"
+	}
+	return normEmptyW(v)
+}
+
+func normEmptyW(v interface{}) interface{} {
 	switch t := v.(type) {
 	case []interface{}:
 		o := make([]interface{}, len(t))
 		for i, e := range t {
-			o[i] = normEmpty(e)
+			o[i] = normEmptyW(e)
 		}
 		return o
 	case map[string]interface{}:
 		o := map[string]interface{}{}
 		for k, e := range t {
-			o[k] = normEmpty(e)
+			o[k] = normEmptyW(e)
 		}
 		return o
 	}
 	return v
+}
+
+// c18Show formats a parsed value for a report (a value that contains itself can not be printed).
+func c18Show(v interface{}) string {
+	if ref.Cyclic(v) {
+		return "<value contains itself>"
+	}
+	return fmt.Sprintf("%#v", v)
 }
 
 // perByteValid replaces every invalid byte by U+FFFD (one per byte, as a Go range loop decodes).
